@@ -7,6 +7,7 @@ package main
 import (
 	"fmt"
 	"go/types"
+	"os"
 	"sort"
 	"strings"
 )
@@ -58,7 +59,13 @@ func NewWorld() *World {
 
 type unsupported struct{ msg string }
 
-func unsup(format string, a ...any) { panic(unsupported{fmt.Sprintf(format, a...)}) }
+func unsup(format string, a ...any) {
+	msg := fmt.Sprintf(format, a...)
+	if os.Getenv("GOVC_TRACE") != "" {
+		panic("unsupported: " + msg)
+	}
+	panic(unsupported{msg})
+}
 
 func sanitize(s string) string {
 	var sb strings.Builder
